@@ -18,8 +18,15 @@ def hinTag : HashIn → String
   | .bytes b => if b.length = 4 then "src4" else if b.length = 16 then "src6" else "whole"
   | .flow a _ _ _ => if a.length = 4 then "flow4" else "flow6"
 
+/-- where `locate_ip` of the hashers finds the IP header: E/R/N (offset 14 / 0 / 4) + version, X = nowhere -/
+def locTag (p : Bytes) : String :=
+  match locateIp p with
+  | none => "X"
+  | some (off, ver) =>
+    (if off = 14 then "E" else if off = 0 then "R" else "N") ++ (match ver with | .v4 => "4" | .v6 => "6")
+
 def hashTag (p : Bytes) : String :=
-  (if looksEth p then "E" else "R") ++ ":" ++ hinTag (hashInputTcp p) ++ ":" ++ hinTag (hashInputHttp p) ++ ":" ++
+  locTag p ++ ":" ++ hinTag (hashInputTcp p) ++ ":" ++ hinTag (hashInputHttp p) ++ ":" ++
     (match hashInputTls p with | some i => hinTag i | none => "none")
 
 def seenTag (p : Bytes) : String :=
@@ -45,20 +52,6 @@ def pFraming : P Framing := do
   let t ← tok
   if t == "eth" then pure .eth else if t == "raw" then pure .raw else if t == "null" then pure .null else failure
 
-def kfNames (fr : Framing) (p : Bytes) : List String :=
-  let seenL : List String := match analyzerView .http p with
-    | none => []
-    | some v =>
-      (if decide (KF.C18.looksLikeEthernet v.loc.fr p) then ["KF.C18.looksLikeEthernet"] else []) ++
-      (if decide (KF.C18.nullFraming v.loc.fr) then ["KF.C18.nullFraming"] else []) ++
-      (if decide (KF.C18.versionNibble v.loc) then ["KF.C18.versionNibble"] else [])
-  let wireL : List String :=
-    if (wireEndpoints fr p).isSome then
-      (if decide (KF.C18.looksLikeEthernet fr p) then ["KF.C18.looksLikeEthernet"] else []) ++
-      (if decide (KF.C18.nullFraming fr) then ["KF.C18.nullFraming"] else [])
-    else []
-  seenL ++ wireL
-
 def pairOf (s : String) : String × String :=
   match s.splitOn "," with | [a, b] => (a, b) | _ => ("?", "!")
 
@@ -75,7 +68,15 @@ def parseEpStr (s : String) : Option Ep :=
 inductive Hasher | tcp | http | tls
   deriving DecidableEq
 
-/-- `C18.pt|ph|pl <framing> <n> <f1> <f2> => w=<a>,<b> e1=<ep|-> e2=<ep|->` -/
+/-- `C18.pt|ph|pl <framing> <n> <f1> <f2> => w=<a>,<b> e1=<ep|-> e2=<ep|->`
+
+Specification (no exclusion class any more):
+ (A) identities = what the analyzers see, taken from the implementation's own report `e1` / `e2`
+     (parse_packet + protocol + TcpPacket::new, before any per-analyzer gate — so the claim covers every
+     frame any of the three analyzers accepts): related identities ⇒ same worker; and the TLS dispatcher
+     does not discard a frame with an identity;
+ (B) identities = endpoints of the well-formed frame of the declared link type, claimed where
+     `LinkHonoured` holds for both frames (the parser takes them for that link type; always for Ethernet). -/
 def pairOp (hs : Hasher) (impl : String) : P Verdict := do
   let fr ← pFraming
   let n ← nat
@@ -86,9 +87,8 @@ def pairOp (hs : Hasher) (impl : String) : P Verdict := do
     s!"e1={optEp (analyzerEndpoints .http p₁)} e2={optEp (analyzerEndpoints .http p₂)}"
   let (w₁, w₂) := pairOf (field impl "w")
   let valid := validIdx n w₁ && validIdx n w₂
-  -- identities: (A) what the analyzers see — taken from the implementation's own report e1/e2;
-  --             (B) the endpoints of the well-formed frame of the declared link type
   let idA := (parseEpStr (field impl "e1"), parseEpStr (field impl "e2"))
+  let honoured := decide (LinkHonoured fr p₁) && decide (LinkHonoured fr p₂)
   let idB := (wireEndpoints fr p₁, wireEndpoints fr p₂)
   let related (a b : Ep) : Bool := match hs with
     | .tcp => a.ver == b.ver && a.src == b.src
@@ -98,20 +98,28 @@ def pairOp (hs : Hasher) (impl : String) : P Verdict := do
     match ids with
     | (some a, some b) => !(related a b) || w₁ == w₂
     | _ => true
-  let okA := claim idA
-  let okB := claim idB
+  -- a frame with an identity is never discarded by the TLS dispatcher
+  let kept (id : Option Ep) (wi : String) : Bool := hs != .tls || id.isNone || wi != "-"
+  let okA := claim idA && kept idA.1 w₁ && kept idA.2 w₂
+  let okB := !honoured || (claim idB && kept idB.1 w₁ && kept idB.2 w₂)
   let ok := valid && okA && okB
   let rel (ids : Option Ep × Option Ep) : String :=
     match ids with
     | (some a, some b) => if a == b then "same" else if a == b.swap then "rev" else
         if a.ver == b.ver && a.src == b.src then "src" else "other"
     | _ => "na"
-  -- no class excuses an index out of range
-  let kf := if ok || !valid then [] else ((kfNames fr p₁) ++ (kfNames fr p₂)).eraseDups
+  let relB : String :=
+    if honoured then rel idB
+    else match idB with
+      | (some _, some _) => "unhonoured"     -- well-formed for the declared link type, parsed as another
+      | _ => "na"
   let hn := match hs with | .tcp => "t" | .http => "h" | .tls => "l"
-  let tag := s!"pair-{hn}:{seenTag p₁}:A-{rel idA}:B-{rel idB}:" ++ hashTag p₁
-  pure { modelEq := impl == model, specOk := some ok, kf := kf, tag := tag, model := model,
-         spec := s!"valid={valid} seen={okA} wire={okB}" }
+  -- `eth4~null4`: the analyzers decode the two frames under different framings
+  let frOf (p : Bytes) : String := match baseView p with | some v => frTag v.loc | none => "unseen"
+  let seen := seenTag p₁ ++ (if frOf p₂ == "unseen" || frOf p₂ == frOf p₁ then "" else "~" ++ frOf p₂)
+  let tag := s!"pair-{hn}:{seen}:A-{rel idA}:B-{relB}:" ++ hashTag p₁
+  pure { modelEq := impl == model, specOk := some ok, kf := [], tag := tag, model := model,
+         spec := s!"valid={valid} seen={okA} wire={if honoured then toString okB else "-"}" }
 
 def handlers : List (String × (String → P Verdict)) :=
   [("C18.w", wOp), ("C18.pt", pairOp .tcp), ("C18.ph", pairOp .http), ("C18.pl", pairOp .tls)]
